@@ -457,11 +457,18 @@ def footprint_strided(V, first_dense):
 
     sx = D * k
     sy = W * sx
+    base = 4096
     with core.shims((u, {"min": core.smin, "max": core.smax, "int": core.IntShim})):
-        if first_dense:
+        if first_dense == 1:
             u.get_address_ranges(fm(None))
-        ranges = u.get_address_ranges(fm(a.NpuShape3D(height=sy, width=sx, depth=1)))
-    addr = 4096 + L(y) * L(sy) + L(x) * L(sx) + L(c)
+        view = fm(a.NpuShape3D(height=sy, width=sx, depth=1))
+        if first_dense == 2:
+            # the SAME feature-map object analysed, then re-targeted (API users and the stripe loop reuse operation objects), then analysed again
+            u.get_address_ranges(view)
+            base = V.int("new_base", 0, 1 << 24)
+            view.tiles = a.NpuTileBox(height_0=H, height_1=H, width_0=W, addresses=[base, 0, 0, 0])
+        ranges = u.get_address_ranges(view)
+    addr = L(base) + L(y) * L(sy) + L(x) * L(sx) + L(c)
     inside = [z3.And(L(r.address) <= addr, addr + 1 <= L(r.address) + L(r.length)) for r in ranges if r is not None]
     return [("every element of the strided view lies inside a declared address range", z3.Or(*inside) if inside else z3.BoolVal(False))]
 
@@ -511,8 +518,8 @@ def instances(tier, seed):
     for accel, kinds in (("Ethos_U55_128", ("conv",) if tier == "quick" else ("conv", "dw", "pool")), ("Ethos_U65_512", ("dw",) if tier == "quick" else ("conv", "dw", "pool"))):
         for kind in kinds:
             out.append(dict(key="programmed_kernel/%s/%s" % (accel, kind), fn="programmed_kernel", params=dict(accel=accel, kind=kind, group="kernel"), weight=100))
-    for fd in (0, 1):
-        out.append(dict(key="footprint_strided/%s" % ("after_dense" if fd else "alone"), fn="footprint_strided", params=dict(first_dense=fd)))
+    for fd in (0, 1, 2):
+        out.append(dict(key="footprint_strided/%s" % ("alone", "after_dense", "retargeted")[fd], fn="footprint_strided", params=dict(first_dense=fd)))
     for nprod, ncons in ((1, 1), (1, 2), (2, 1)):
         for accel in ("Ethos_U55_128", "Ethos_U65_512"):
             if tier == "quick" and nprod + ncons > 2 and accel != "Ethos_U55_128":
